@@ -267,7 +267,7 @@ impl CelsData<RawPixels> {
         }
         let validate_ref = |id: CelId| {
             let index = id.frame as usize * num_layers + id.layer as usize;
-            if is_linkable_cel[index] {
+            if (id.frame as u32) < num_frames && is_linkable_cel[index] {
                 Ok(())
             } else {
                 Err(AsepriteParseError::InvalidInput(format!(
@@ -282,6 +282,12 @@ impl CelsData<RawPixels> {
             result.data.push(Vec::with_capacity(cels_by_layer.len()));
             for (layer, opt_cel) in cels_by_layer.into_iter().enumerate() {
                 let cel = if let Some(cel) = opt_cel {
+                    if layer >= num_layers {
+                        return Err(AsepriteParseError::InvalidInput(format!(
+                            "Cel references invalid layer: {}",
+                            layer
+                        )));
+                    }
                     let cel_id = CelId {
                         frame: frame as u16,
                         layer: layer as u16,
